@@ -25,7 +25,7 @@ RULE = ('process programs (sync/async steps, waits with resume values, continuat
 RULE += ('; also: live persisters with the writing instance running on (lost work), mid-step saves, another loop being current at load time, aliased context objects, checkpoints written from the paused hook of a pause requested inside a step')
 ASSUMPTIONS = ['steps depend only on persisted state by construction (trace and scripts live in persisted members / ctx / inputs)',
                'WorkChains waiting on futures are not checkpoint points (they cannot be saved)']
-REQUIRED = ['paused_hook_checkpoints', 'restores', 'kinds/process', 'kinds/outline', 'transport/pickle', 'crash_in_wait', 'multi_restore', 'traces_compared', 'ctx_compared',
+REQUIRED = ['checkpoint_at_every_boundary', 'paused_hook_checkpoints', 'restores', 'kinds/process', 'kinds/outline', 'transport/pickle', 'crash_in_wait', 'multi_restore', 'traces_compared', 'ctx_compared',
             'inputs/none', 'inputs/empty', 'inputs/given', 'outline_nodes/if', 'outline_nodes/while', 'elif_or_else_body_crash', 'lost_work_restores', 'transport/mem-live', 'transport/pkfile-live', 'transport/bundle-live', 'codec_processes', 'midstep_saves', 'loaded_with_other_loop_current']
 BOUNDS = {'quick': 'basic family + 12 random programs, 60 outlines, crash subsets <=2', 'thorough': '+150 random programs, 800 outlines, subsets <=3, persister/YAML transports'}
 
@@ -52,6 +52,22 @@ def _progs(tier, seed):
     return progs
 
 
+def _st(*names):
+    return [['step', n] for n in names]
+
+
+#: (outline, predicate script): nested blocks that open a body
+NESTED_FIRST = [
+    ([['step', 's0'], ['while', 'p0', [['if', [['p1', _st('s1', 's2')]], None], ['step', 's3']]], ['step', 's4']], [True, True, True, True, False]),
+    ([['step', 's0'], ['while', 'p0', [['if', [['p1', _st('s1', 's2')]], _st('s5', 's6')], ['step', 's3']]], ['step', 's4']], [True, False, True, True, False]),
+    ([['step', 's0'], ['if', [['p0', [['while', 'p1', _st('s1', 's2')], ['step', 's3']]]], _st('s5')], ['step', 's4']], [True, True, True, False]),
+    ([['while', 'p0', [['while', 'p1', _st('s1', 's2')], ['step', 's3']]], ['step', 's4']], [True, True, True, False, True, True, False, False]),
+    ([['if', [['p0', [['if', [['p1', _st('s1', 's2')]], None], ['step', 's3']]]], _st('s5')], ['step', 's4']], [True, True]),
+    ([['if', [['p0', _st('s9')], ['p1', [['while', 'p2', _st('s1', 's2')], ['step', 's3']]]], _st('s5')], ['step', 's4']], [False, True, True, True, False]),
+    ([['if', [['p0', _st('s9')]], [['while', 'p2', _st('s1', 's2')], ['step', 's3']]], ['step', 's4']], [False, True, True, False]),
+]
+
+
 def gen_cases(tier, seed):
     rng = plans.rng_for(seed, 'c08')
     M = 2 if tier == 'quick' else 3
@@ -74,22 +90,33 @@ def gen_cases(tier, seed):
                 for cs in rng.sample(sets, min(len(sets), 6 if tier == 'quick' else 20)):
                     yield {'kind': 'process', 'name': name, 'program': prog, 'inputs': inputs, 'ctx': ctxprog, 'crash': cs,
                            'transport': rng.choice(['mem-live', 'pkfile-live', 'bundle-live']), 'lag': rng.randint(0, 3)}
+                    # ... or the instance saves itself at every boundary and is lost at the crash points
+                    yield {'kind': 'process', 'name': name, 'program': prog, 'inputs': inputs, 'ctx': ctxprog, 'crash': cs,
+                           'transport': rng.choice(['mem-live', 'pkfile-live']), 'lag': 0, 'save_every': True}
                 # "persist when paused": a pause requested from inside step k, the checkpoint written from the paused hook (after the
                 # step has returned and the next state was entered), the instance abandoned there; the restored process is played
                 for k in rng.sample(range(len(prog['steps'])), min(len(prog['steps']), 3 if tier == 'quick' else 6)):
                     yield {'kind': 'process', 'name': name, 'program': prog, 'inputs': inputs, 'ctx': ctxprog, 'crash': [], 'paused_crash': k,
                            'transport': rng.choice(transports)}
     nout = 60 if tier == 'quick' else 800
-    for i in range(nout):
-        ast = outlines.random_ast(rng, rng.randint(1, 3), max_body=4)
-        preds = [rng.random() < 0.6 for _ in range(rng.randint(0, 10))]
-        rets = [rng.choice([None] * 14 + [0, 7, 'r']) for _ in range(rng.randint(0, 12))]
+    fixed = list(NESTED_FIRST)
+    for i in range(nout + len(fixed)):
+        if i < len(fixed):
+            # a block (loop or branch) as the FIRST instruction of a loop / branch body, crash points inside it, in every iteration
+            ast, preds = fixed[i]
+            rets = []
+        else:
+            ast = outlines.random_ast(rng, rng.randint(1, 3), max_body=4)
+            preds = [rng.random() < 0.6 for _ in range(rng.randint(0, 10))]
+            rets = [rng.choice([None] * 14 + [0, 7, 'r']) for _ in range(rng.randint(0, 12))]
         trace, _res, how = outlines.interpret(ast, preds, rets, max_calls=80)
         if how == 'budget':
             continue
         nb = sum(1 for t in trace if t.startswith('s')) + 1
         sets = [list(c) for k in range(1, M + 1) for c in itertools.combinations(range(nb), k)] + [list(range(nb))]
-        if len(sets) > 25:
+        if i < len(fixed):
+            sets = [[b] for b in range(nb)] + rng.sample([c for c in sets if len(c) > 1], min(8, len([c for c in sets if len(c) > 1])))
+        elif len(sets) > 25:
             sets = rng.sample(sets, 25)
         for cs in sets:
             yield {'kind': 'outline', 'ast': ast, 'preds': preds, 'rets': rets, 'emit': i % 2 == 0, 'crash': cs, 'transport': rng.choice(transports),
@@ -97,6 +124,8 @@ def gen_cases(tier, seed):
         for cs in rng.sample(sets, min(len(sets), 6 if tier == 'quick' else 12)):
             yield {'kind': 'outline', 'ast': ast, 'preds': preds, 'rets': rets, 'emit': i % 2 == 0, 'crash': cs,
                    'transport': rng.choice(['mem-live', 'pkfile-live', 'bundle-live']), 'lag': rng.randint(0, 3)}
+            yield {'kind': 'outline', 'ast': ast, 'preds': preds, 'rets': rets, 'emit': i % 2 == 0, 'crash': cs,
+                   'transport': rng.choice(['mem-live', 'pkfile-live']), 'lag': 0, 'save_every': True}
         for k in rng.sample(range(nb - 1), min(nb - 1, 3 if tier == 'quick' else 6)):
             yield {'kind': 'outline', 'ast': ast, 'preds': preds, 'rets': rets, 'emit': i % 2 == 0, 'crash': [], 'paused_crash': k,
                    'transport': rng.choice(transports)}
@@ -189,7 +218,9 @@ def run_case(case):
             return {'viol': [], 'obs': obs, 'inconclusive': 'reference:%s' % ref['inconclusive'], 'key': case, 'nontrivial': False}
         if case['transport'].endswith('-live'):
             pers = {'mem-live': plumpy.InMemoryPersister, 'pkfile-live': lambda: plumpy.PicklePersister(workdir), 'bundle-live': lambda: None}[case['transport']]()
-            r = persist.run_with_crashes(make, case['crash'], resume, persister=pers, lag=case['lag'])
+            r = persist.run_with_crashes(make, case['crash'], resume, persister=pers, lag=0 if case.get('save_every') else case['lag'],
+                                         save_every=bool(case.get('save_every')) and pers is not None)
+            obs['checkpoint_at_every_boundary'] = int(bool(case.get('save_every')) and pers is not None and r.get('restores', 0) > 0)
             obs['lost_work_restores'] = int(case['lag'] > 0 and r.get('restores', 0) > 0)
         else:
             r = persist.run_with_crashes(make, case['crash'], resume, transport=_transport(case['transport'], workdir),
